@@ -1,0 +1,15 @@
+//go:build !verif
+// +build !verif
+
+// Package verifhook provides observation and schedule-perturbation points for
+// external verification tooling. Without the `verif` build tag every function
+// in this package is an empty stub.
+package verifhook
+
+// Yield is a schedule perturbation point. It does nothing unless murex is
+// compiled with the `verif` build tag.
+func Yield(point string) {}
+
+// Event records an observation. It does nothing unless murex is compiled with
+// the `verif` build tag.
+func Event(kind string, args ...any) {}
